@@ -1,14 +1,14 @@
 SPECIFICATION Spec
-CONSTANTS Depth = 2
- MaxOps = 1
+CONSTANTS Depth = 1
+ MaxOps = 3
  Pats <- None
- Targs <- TargsAll
- Insts <- None
- CmpSet <- CmpAll
- Cmp3Set <- Cmp3Tiny
- Kinds <- KindsPair
- Record = TRUE
- EmitAll = TRUE
+ Targs <- None
+ Insts <- InstsSmall
+ CmpSet <- None
+ Cmp3Set <- None
+ Kinds <- KindsCompose
+ Record = FALSE
+ EmitAll = FALSE
 INVARIANT StepsLawful
 INVARIANT LookLawful
 INVARIANT InstsFunctional
